@@ -1,5 +1,6 @@
-import DeapModel.Core.Variation
+import DeapModel.Core.VariationOps
 import Driver.Proto
+import Driver.C11
 /-!
 Protocol handler for C02 (variation).
 
@@ -18,6 +19,30 @@ Protocol handler for C02 (variation).
            (`<obj x>` = `<genome>|<fit>` of object x right after the operator returned; a returned oid that is
            not an argument is an object the operator allocated.)  The scripted operator refuses (→ `bad-tape`)
            a call whose arguments differ from the record.
+
+    C02 andc <fmt> <pop> <heap> <cxpb> <mutpb> <draws> <mate> <mlim> <mutate> <ulim> <optape>
+    C02 orc  <fmt> <pop> <heap> <lambda> <cxpb> <mutpb> <tape> <mate> <mlim> <mutate> <ulim> <optape>
+
+  the COMPOSED model: `varAnd` / `varOr` run end to end with the operator models of `Core/VariationOps.lean`
+  (no script: the operators compute the genomes themselves from the operator tape).
+* `fmt`     `i` integer genes; `f` float genes (`f:<bits>`, stored in the heap as bit patterns); `e` evolution-strategy
+            individuals `<n>,<n float genes>,<strategy floats>`; `t` GP trees: a gene is a node token of the C11 protocol
+            (`name:ret:a.b:kind:text`, stored in the heap as the number `encStr` of that text), `optape` is then the GP tape
+            of the C11 protocol and six more tokens follow: the primitive set `<sub> <prims> <terms> <ret> <tc> <pc>`;
+            `mate` is `gp.cxOnePoint` / `gp.cxOnePointLeafBiased/<termpb>`, `mutate` is `gp.mutUniform/<full|grow|half>/<min>/<max>`
+            / `gp.mutNodeReplacement` / `gp.mutEphemeral/<one|all>` / `gp.mutInsert` / `gp.mutShrink`, a limit is `height/<max>`
+* `mate`    `cxOnePoint` `cxTwoPoint` `cxTwoPoints` `cxUniform/<indpb>` `cxPartialyMatched`
+            `cxUniformPartialyMatched/<indpb>` `cxOrdered` `cxMessyOnePoint` `cxESTwoPoint` `cxESTwoPoints` `cxBlend/<alpha>`
+            `cxSimulatedBinary/<eta>` `cxSimulatedBinaryBounded/<eta>/<low>/<up>` `cxESBlend/<alpha>`
+* `mutate`  `mutShuffleIndexes/<indpb>` `mutFlipBit/<indpb>` `mutUniformInt/<low>/<up>/<indpb>` `mutInversion`
+            `mutGaussian/<mu>/<sigma>/<indpb>` `mutPolynomialBounded/<eta>/<low>/<up>/<indpb>` `mutESLogNormal/<c>/<indpb>`
+            (a bound is `s<value>` = a number or `l<comma list>` = a sequence)
+* `mlim`, `ulim`  `-` or `len/<max>` / `sum/<max>`: the operator is decorated with `gp.staticLimit(key, max)`
+* `optape`  comma list of the operators' draws in call order: `r:f:<bits>` random(), `i:<int>` randint / randrange /
+            element of sample / index of choice, `g:f:<bits>` gauss
+  Answer: `off=<names> objs=< o <genome> <fit>…> par=<…> log=<events> rest=<unused operator draws>`; an object is named
+  `p<oid>` (an input), `k<j>` (the j-th clone `toolbox.clone` made) or `x` (allocated by an operator); `bad-tape` when
+  an operator call raised in the model or a tape does not fit.
 
 Answer: `off=<oids> cls=<f|i<k>…> objs=<obj;…> par=<obj;…> log=<events>`; `bad-tape` when the tape or
 the script does not fit the model's run, `assert` for varOr's `cxpb + mutpb <= 1.0`, `bad-op` on
@@ -98,6 +123,181 @@ def showRes (pop : List Nat) (n0 : Nat) (r : Res Script) : String :=
     ++ " par=" ++ (if n0 = 0 then "-" else ";".intercalate ((List.range n0).map (fun o => showObj (r.st.heap o))))
     ++ " log=" ++ showList showEv r.st.log
 
+/-! ### the composed model (`andc` / `orc`) -/
+
+/-- a gene: an integer, or a float `f:<bits>` stored as its bit pattern -/
+def parseGene (s : String) : Option Int :=
+  if s.startsWith "f:" then (s.drop 2).toString.toNat?.map Int.ofNat else parseInt s
+
+/-- a tree node: the number of its (canonical) protocol token -/
+def parseNodeGene (s : String) : Option Int :=
+  (DriverC11.parseNode s).map (fun p => Int.ofNat (encStr (DriverC11.showNode p)))
+
+def parseObjC (fmt : String) (s : String) : Option Obj :=
+  match s.splitOn "|" with
+  | [g, f] => do
+    let genome ← parseList (if fmt = "t" then parseNodeGene else parseGene) g
+    let fit ← if f = "none" then some none else (parseList parseInt f).map some
+    some ⟨genome, fit⟩
+  | _ => none
+
+def parseHeapC (fmt : String) (s : String) : Option (List Obj) :=
+  if s = "-" then some [] else (s.splitOn ";").mapM (parseObjC fmt)
+
+def parseODraw (s : String) : Option ODraw :=
+  match s.splitOn ":" with
+  | ["r", "f", b] => (parseFloat ("f:" ++ b)).map ODraw.rnd
+  | ["g", "f", b] => (parseFloat ("f:" ++ b)).map ODraw.gauss
+  | ["i", v] => (parseInt v).map ODraw.int
+  | _ => none
+
+def parseIBound (s : String) : Option CrossMut.Bound :=
+  if s.startsWith "s" then (parseInt (s.drop 1).toString).map CrossMut.Bound.scalar
+  else if s.startsWith "l" then (parseList parseInt (s.drop 1).toString).map CrossMut.Bound.seq
+  else none
+
+def parseFBound (s : String) : Option (RealOps.Bound Float) :=
+  if s.startsWith "s" then (parseFloat (s.drop 1).toString).map RealOps.Bound.scalar
+  else if s.startsWith "l" then (parseList parseFloat (s.drop 1).toString).map RealOps.Bound.seq
+  else none
+
+def parseMate (s : String) : Option LibMate :=
+  match s.splitOn "/" with
+  | ["cxOnePoint"] => some .cxOnePoint
+  | ["cxTwoPoint"] => some .cxTwoPoint
+  | ["cxTwoPoints"] => some .cxTwoPoints
+  | ["cxUniform", p] => (parseFloat p).map .cxUniform
+  | ["cxPartialyMatched"] => some .cxPartialyMatched
+  | ["cxUniformPartialyMatched", p] => (parseFloat p).map .cxUniformPartialyMatched
+  | ["cxOrdered"] => some .cxOrdered
+  | ["cxMessyOnePoint"] => some .cxMessyOnePoint
+  | ["cxESTwoPoint"] => some .cxESTwoPoint
+  | ["cxESTwoPoints"] => some .cxESTwoPoints
+  | ["cxBlend", a] => (parseFloat a).map .cxBlend
+  | ["cxSimulatedBinary", e] => (parseFloat e).map .cxSimulatedBinary
+  | ["cxSimulatedBinaryBounded", e, lo, up] => do
+    some (.cxSimulatedBinaryBounded (← parseFloat e) (← parseFBound lo) (← parseFBound up))
+  | ["cxESBlend", a] => (parseFloat a).map .cxESBlend
+  | ["gp.cxOnePoint"] => some .gpCxOnePoint
+  | ["gp.cxOnePointLeafBiased", pb] => (parseFloat pb).map .gpCxOnePointLeafBiased
+  | _ => none
+
+def parseMut (ps : Option GpTree.Pset) (s : String) : Option LibMut :=
+  match s.splitOn "/" with
+  | ["gp.mutUniform", mode, mn, mx] => do
+    let ps ← ps
+    let m ← DriverC11.parseMode mode
+    let mn ← parseNat mn
+    let mx ← parseNat mx
+    some (.gpMutUniform (fun τ tp => GpTree.runGen m ps mn mx τ tp))
+  | ["gp.mutNodeReplacement"] => ps.map .gpMutNodeReplacement
+  | ["gp.mutEphemeral", mode] =>
+    if mode = "one" then some (.gpMutEphemeral true) else if mode = "all" then some (.gpMutEphemeral false) else none
+  | ["gp.mutInsert"] => ps.map .gpMutInsert
+  | ["gp.mutShrink"] => some .gpMutShrink
+  | ["mutShuffleIndexes", p] => (parseFloat p).map .mutShuffleIndexes
+  | ["mutFlipBit", p] => (parseFloat p).map .mutFlipBit
+  | ["mutUniformInt", lo, up, p] => do some (.mutUniformInt (← parseIBound lo) (← parseIBound up) (← parseFloat p))
+  | ["mutInversion"] => some .mutInversion
+  | ["mutGaussian", m, sg, p] => do some (.mutGaussian (← parseFBound m) (← parseFBound sg) (← parseFloat p))
+  | ["mutPolynomialBounded", e, lo, up, p] => do
+    some (.mutPolynomialBounded (← parseFloat e) (← parseFBound lo) (← parseFBound up) (← parseFloat p))
+  | ["mutESLogNormal", c, p] => do some (.mutESLogNormal (← parseFloat c) (← parseFloat p))
+  | _ => none
+
+def parseLimit (s : String) : Option (Option (LimitKey × Int)) :=
+  if s = "-" then some none else
+  match s.splitOn "/" with
+  | ["len", m] => (parseInt m).map (fun k => some (LimitKey.len, k))
+  | ["sum", m] => (parseInt m).map (fun k => some (LimitKey.sum, k))
+  | ["height", m] => (parseInt m).map (fun k => some (LimitKey.height, k))
+  | _ => none
+
+def parseLib (ps : Option GpTree.Pset) (mate mlim mutn ulim : String) : Option Lib := do
+  some { mate := ← parseMate mate, mutate := ← parseMut ps mutn, mateLimit := ← parseLimit mlim, mutLimit := ← parseLimit ulim }
+
+/-- floats as bit patterns; a tree node as the number of its protocol token (a gene that is no such number is no node) -/
+def driverViews : Views where
+  tree :=
+    { dec := fun g => g.filterMap (fun i => DriverC11.parseNode (decStr i.toNat))
+      enc := fun l => l.map (fun p => Int.ofNat (encStr (DriverC11.showNode p))) }
+
+def showGenes (fmt : String) (g : List Int) : String :=
+  let fl := fun (x : Int) => "f:" ++ toString x.toNat
+  if fmt = "i" then showList toString g
+  else if fmt = "t" then showList (fun x => decStr x.toNat) g
+  else if fmt = "f" then showList fl g
+  else
+    match g with
+    | [] => "-"
+    | n :: r => ",".intercalate (toString n :: r.map fl)
+
+def showObjC (fmt : String) (o : Obj) : String :=
+  " o " ++ showGenes fmt o.genome ++ " " ++ (match o.fit with | none => "none" | some f => showList toString f)
+
+def cloneOids : List Ev → List Nat
+  | [] => []
+  | .clone _ n :: l => n :: cloneOids l
+  | _ :: l => cloneOids l
+
+def nameOf (n0 : Nat) (clones : List Nat) (o : Nat) : String :=
+  if o < n0 then "p" ++ toString o
+  else if clones.contains o then "k" ++ toString (clones.idxOf o)
+  else "x"
+
+def showEvC (n0 : Nat) (clones : List Nat) : Ev → String
+  | .clone a _ => "c" ++ nameOf n0 clones a
+  | .mate a b => "m" ++ nameOf n0 clones a ++ "&" ++ nameOf n0 clones b
+  | .mutate a => "u" ++ nameOf n0 clones a
+
+def showResC (fmt : String) (n0 : Nat) (r : Res LTape) : String :=
+  if !r.tape.ok then "bad-tape" else
+  let clones := cloneOids r.st.log
+  "off=" ++ showList (nameOf n0 clones) r.off
+    ++ " dup=" ++ (if r.off.eraseDups.length = r.off.length then "0" else "1")
+    ++ " objs=" ++ String.join (r.off.map (fun o => showObjC fmt (r.st.heap o)))
+    ++ " par=" ++ String.join ((List.range n0).map (fun o => showObjC fmt (r.st.heap o)))
+    ++ " log=" ++ showList (showEvC n0 clones) r.st.log
+    ++ " rest=" ++ toString (r.tape.draws.length + r.tape.gp.length)
+
+/-- `andc` (`lams = none`) / `orc`: the composed run -/
+def composed (fmt pops heaps : String) (lams : Option String) (cx mu dec mate mlim mutn ulim : String)
+    (ot : Option (List ODraw)) (gt : Option GpTree.Tape) (ps : Option GpTree.Pset) : String :=
+  match (do
+    let pop ← parseList parseNat pops
+    let objs ← parseHeapC fmt heaps
+    let cxpb ← parseFloat cx
+    let mutpb ← parseFloat mu
+    let lib ← parseLib ps mate mlim mutn ulim
+    let ot ← ot
+    let gt ← gt
+    if pop.all (· < objs.length) then pure (pop, objs, cxpb, mutpb, lib, ot, gt) else none) with
+  | none => "bad-op"
+  | some (pop, objs, cxpb, mutpb, lib, ot, gt) =>
+    let t0 : LTape := { draws := ot, gp := gt }
+    match lams with
+    | none =>
+      match parseList parseFloat dec with
+      | none => "bad-op"
+      | some ds =>
+        match decodeAnd cxpb mutpb pop.length ds with
+        | none => "bad-tape"
+        | some (mateD, mutD) =>
+          match varAnd (lib.ops driverViews) t0 (mkState objs) pop mateD mutD with
+          | none => "bad-tape"
+          | some r => showResC fmt objs.length r
+    | some lams =>
+      match parseNat lams, parseList parseDraw dec with
+      | some lam, some ds =>
+        if !orAssert cxpb mutpb then "assert" else
+        match decodeOr cxpb mutpb lam ds with
+        | none => "bad-tape"
+        | some choices =>
+          match varOr (lib.ops driverViews) t0 (mkState objs) pop lam choices with
+          | none => "bad-tape"
+          | some r => showResC fmt objs.length r
+      | _, _ => "bad-op"
+
 def handle : List String → String
   | ["and", pops, heaps, cx, mu, draws, scr] =>
     match (do
@@ -135,6 +335,24 @@ def handle : List String → String
         match varOr scripted ⟨sc, true⟩ (mkState objs) pop lam choices with
         | none => "bad-tape"
         | some r => showRes pop objs.length r
+  | ["andc", fmt, pops, heaps, cx, mu, draws, mate, mlim, mutn, ulim, optape] =>
+    if fmt = "i" ∨ fmt = "f" ∨ fmt = "e" then
+      composed fmt pops heaps none cx mu draws mate mlim mutn ulim (parseList parseODraw optape) (some []) none
+    else "bad-op"
+  | ["orc", fmt, pops, heaps, lams, cx, mu, tape, mate, mlim, mutn, ulim, optape] =>
+    if fmt = "i" ∨ fmt = "f" ∨ fmt = "e" then
+      composed fmt pops heaps (some lams) cx mu tape mate mlim mutn ulim (parseList parseODraw optape) (some []) none
+    else "bad-op"
+  | ["andc", "t", pops, heaps, cx, mu, draws, mate, mlim, mutn, ulim, gptape, s, p, t, r, tc, pc] =>
+    match DriverC11.parsePset s p t r tc pc with
+    | none => "bad-op"
+    | some ps =>
+      composed "t" pops heaps none cx mu draws mate mlim mutn ulim (some []) (DriverC11.parseTape gptape) (some ps)
+  | ["orc", "t", pops, heaps, lams, cx, mu, tape, mate, mlim, mutn, ulim, gptape, s, p, t, r, tc, pc] =>
+    match DriverC11.parsePset s p t r tc pc with
+    | none => "bad-op"
+    | some ps =>
+      composed "t" pops heaps (some lams) cx mu tape mate mlim mutn ulim (some []) (DriverC11.parseTape gptape) (some ps)
   | _ => "bad-op"
 
 end DriverC02
